@@ -123,7 +123,7 @@ func extractNodes(a hx.ExtractArgs, lf *hx.LeanFile, w *world) error {
 	var rows []string
 	for _, name := range fnNames() {
 		var fields [][2]string
-		seenType := ""
+		seenType, structName := "", ""
 		for _, ar := range fnArity[name] {
 			cols := make([]sql.Expression, ar)
 			for i := range cols {
@@ -140,15 +140,20 @@ func extractNodes(a hx.ExtractArgs, lf *hx.LeanFile, w *world) error {
 			if seenType == "" {
 				seenType = t.String()
 				flattenFields(t, "", structs, &fields)
+				et := t
+				for et.Kind() == reflect.Ptr {
+					et = et.Elem()
+				}
+				structName = strings.TrimPrefix(et.PkgPath(), "github.com/dolthub/go-mysql-server/") + "." + et.Name()
 			}
 		}
 		cells := make([]string, len(fields))
 		for i, f := range fields {
 			cells[i] = fmt.Sprintf("(%s, %s)", hx.LeanString(f[0]), hx.LeanString(f[1]))
 		}
-		rows = append(rows, fmt.Sprintf("(%s, %s, [%s])", hx.LeanString(name), hx.LeanString(seenType), strings.Join(cells, ", ")))
+		rows = append(rows, fmt.Sprintf("(%s, %s, [%s])", hx.LeanString(name), hx.LeanString(structName), strings.Join(cells, ", ")))
 	}
-	lf.Comment("per modelled function: the node type its constructor builds and the node's fields (embedded structs flattened), by reflection on the compiled code")
+	lf.Comment("per modelled function: the struct type of the node its constructor builds and the node's fields (embedded structs flattened), by reflection on the compiled code")
 	lf.Raw("def nodeFields : List (String × String × List (String × String)) := [\n  " + strings.Join(rows, ",\n  ") + "]\n")
 
 	// go/ast: methods of the node structs (and of the structs they embed) that write through the receiver
